@@ -36,9 +36,9 @@ import (
 
 type OpJ struct {
 	Op    string      `json:"op"` // save | delete | deleteUpstream | flush | stop | load | restart
-	Key   string      `json:"key,omitempty"`
+	Key   string      `json:"key"`
 	Cond  *CondJ      `json:"cond,omitempty"`
-	Name  string      `json:"name,omitempty"`
+	Name  string      `json:"name"`
 	Ord   [][2]string `json:"ord,omitempty"` // visiting order of the cache observed on the real store (hint for the model)
 	Shard int         `json:"shard"`
 	WT    bool        `json:"wt"`
@@ -336,7 +336,7 @@ type obsJ struct {
 	Op      OpJ        `json:"op"`
 	Loc     []locEntry `json:"loc"`     // cache before the operation
 	Stopped bool       `json:"stopped"` // a Stop() had returned nil on this store before
-	Points  [][]CondJ  `json:"points"`  // the API after every call the operation made
+	Points  []pointJ   `json:"points"`  // the API after every call the operation made
 	Api     []CondJ    `json:"api"`     // the API when it returned
 	Res     string     `json:"res"`
 }
@@ -395,6 +395,7 @@ func runImpl(cs *Case) (*implRun, *failure) {
 		stopped := r.stopped
 		r.sim.mu.Lock()
 		c0 := r.sim.calls
+		l0 := len(r.sim.log)
 		r.sim.mu.Unlock()
 		o := r.do(op)
 		if o.hung {
@@ -404,8 +405,8 @@ func runImpl(cs *Case) (*implRun, *failure) {
 			return nil, &failure{kind: "judge", class: "c19.panic", what: fmt.Sprintf("%s panicked: %s", op.Op, o.panicked)}
 		}
 		r.sim.mu.Lock()
-		points := append([][]CondJ{}, r.sim.snaps[c0:]...)
-		log := append([]callRec{}, r.sim.log[c0:]...)
+		points := append([]pointJ{}, r.sim.snaps[c0:]...)
+		log := append([]callRec{}, r.sim.log[l0:]...)
 		calls := r.sim.calls
 		nextRv := r.sim.nextRv
 		api := r.sim.contents()
@@ -509,7 +510,7 @@ func evalSeq(c *rig.Ctx, cs Case) (*failure, *implRun) {
 			o := impl.Obs[verdict.At]
 			var api []CondJ
 			if verdict.Point < len(o.Points) {
-				api = o.Points[verdict.Point]
+				api = o.Points[verdict.Point].Api
 			} else {
 				api = o.Api
 			}
@@ -525,7 +526,7 @@ func evalSeq(c *rig.Ctx, cs Case) (*failure, *implRun) {
 	// correspondence with the model
 	var m struct {
 		Steps []stepJ
-		Trace [][]CondJ
+		Trace []pointJ
 	}
 	ops := append([]OpJ{}, impl.Ops...)
 	ops = append(ops, cs.Ops[len(impl.Ops):]...)
@@ -542,7 +543,7 @@ func evalSeq(c *rig.Ctx, cs Case) (*failure, *implRun) {
 		}
 	}
 	// every crash point
-	var implTrace [][]CondJ
+	var implTrace []pointJ
 	for _, o := range impl.Obs {
 		implTrace = append(implTrace, o.Points...)
 	}
@@ -551,7 +552,7 @@ func evalSeq(c *rig.Ctx, cs Case) (*failure, *implRun) {
 			what: fmt.Sprintf("the real store made %d API calls, the model %d", len(implTrace), len(m.Trace))})
 	}
 	for i := range implTrace {
-		sortConds(m.Trace[i])
+		sortConds(m.Trace[i].Api)
 		if rig.Canon(m.Trace[i]) != rig.Canon(implTrace[i]) {
 			return fail(&failure{kind: "diff", class: "c19.trace", impl: implTrace[i], model: m.Trace[i],
 				what: fmt.Sprintf("API after call %d: model %s, real %s", i, show(m.Trace[i]), show(implTrace[i]))})
